@@ -423,7 +423,7 @@ def static_check(invoke_text, ints, call, routine):
     def designate(tok):
         """PSy-layer expression token -> resolved program argument"""
         t = re.sub(r"\s+", "", tok).lower()
-        t = re.sub(r"\(df\)$", "", t)
+        t = re.sub(r"\([a-z0-9_]+\)$", "", t)    # loop index (df, df_1, ..)
         if t in data_of and data_of[t] in bind:
             return bind[data_of[t]]
         m2 = re.match(r"^([a-z0-9_]+)%data$", t)
@@ -500,7 +500,7 @@ def static_check(invoke_text, ints, call, routine):
                     "built-in %s writes %r bound to %s; the invoke text "
                     "writes %r = %s" % (kc["kern"], lhs.strip(), g,
                                         kc["args"][wi].strip(), want[wi])))
-            toks = re.findall(r"[a-z_][a-z0-9_]*(?:%data)?(?:\(df\))?"
+            toks = re.findall(r"[a-z_][a-z0-9_]*(?:%data)?(?:\([a-z0-9_]+\))?"
                               r"|[0-9]+(?:\.[0-9]*)?(?:_[a-z0-9_]+)?",
                               rhs.lower().replace(" ", ""))
             got_f = set()
